@@ -29,7 +29,7 @@ pub const MARKERLIKE: &[&str] = &[
     "commit deadbeef", "index 123..456", "Binary files a and b differ", "rename from x",
     "old mode 100644", "<<<<<<< HEAD", "=======", ">>>>>>> other", "Submodule x", "{\"type\":1}",
     "# comment", "// -- note", "* bullet", "similarity index 90%", "new file mode 100644",
-    "Only in x: y", "--- a", "+++ b", "Subproject commit abc", "Subproject commit 0123456789012345678901234567890123456789-dirty x",
+    "Only in x: y", "--- a", "+++ b", "Subproject commit abc", "\u{301}x y", "\u{fe0f} z", "\u{200d}w", "\u{308}", "Subproject commit 0123456789012345678901234567890123456789-dirty x",
 ];
 
 pub fn ident(t: &mut Tape) -> String {
